@@ -756,3 +756,83 @@ func R17LabelArity(c *Ctx) {
 		c.R.Anchor(rule, "the AsHCLBlock append in PartialContent")
 	}
 }
+
+// R17Extraneous — an item the schema does not know is always reported.
+func R17Extraneous(c *Ctx) {
+	const rule = "R17-extraneous"
+	c.R.Rule(rule, "in hclsyntax.(*Body).Content the diagnostics \"Unsupported argument\" / \"Unsupported block type\" are raised for every attribute/block of the body that PartialContent did not consume: inside the loop over the body's items nothing but the lookup in hiddenAttrs/hiddenBlocks stands between an item and its diagnostic (a second, more tolerant membership test lets mis-spelled settings through unreported and undecoded)", 2)
+	fn := c.P.Func(PkgYaotl+"/hclsyntax", "Body.Content")
+	if fn == nil {
+		c.R.Anchor(rule, "hclsyntax.(*Body).Content")
+		return
+	}
+	loops := naturalLoops(fn)
+	n := 0
+	for _, b := range fn.Blocks {
+		for _, in := range b.Instrs {
+			st, ok := in.(*ssa.Store)
+			if !ok {
+				continue
+			}
+			s, isS := ConstString(st.Val)
+			if !isS || (s != "Unsupported argument" && s != "Unsupported block type") {
+				continue
+			}
+			if _, f, _, ok := FieldOf(st.Addr); !ok || f != "Summary" {
+				continue
+			}
+			n++
+			construct := "\"" + s + "\" for every item not consumed"
+			var l *natLoop
+			for _, cand := range loops {
+				if cand.body[b] && (l == nil || len(cand.body) < len(l.body)) {
+					l = cand
+				}
+			}
+			if l == nil {
+				c.R.Bad(rule, FuncShort(fn), construct, c.pos(st.Pos()), "the diagnostic is no longer raised inside a loop over the body's items")
+				continue
+			}
+			extra := ""
+			for _, f := range FactsAt(b) {
+				if !l.body[f.If.Block()] || f.If.Block() == l.header {
+					continue
+				}
+				innerHeader := false
+				for _, il := range loops {
+					if il.header == f.If.Block() {
+						innerHeader = true // the exit of a nested loop (building the suggestion list)
+					}
+				}
+				if innerHeader {
+					continue
+				}
+				cond, _ := StripNot(f.Cond, f.Truth)
+				okFact := false
+				if ex, isEx := cond.(*ssa.Extract); isEx && ex.Index == 1 {
+					switch t := ex.Tuple.(type) {
+					case *ssa.Lookup:
+						if DerivesFrom(t.X, func(v ssa.Value) bool {
+							return IsFieldLoad("", "hiddenAttrs")(v) || IsFieldLoad("", "hiddenBlocks")(v)
+						}) {
+							okFact = true
+						}
+					case *ssa.Next:
+						okFact = true
+					}
+				}
+				if !okFact {
+					extra = c.pos(f.If.Cond.Pos())
+				}
+			}
+			if extra == "" {
+				c.R.Ok(rule, FuncShort(fn), construct, c.pos(st.Pos()), "only the hidden-item lookup guards the diagnostic", true)
+			} else {
+				c.R.Bad(rule, FuncShort(fn), construct, extra, "another condition inside the loop decides whether an unconsumed item is reported: some items the schema does not contain are accepted silently and their values never decoded")
+			}
+		}
+	}
+	if n < 2 {
+		c.R.Anchor(rule, "the two \"Unsupported …\" diagnostics of (*Body).Content")
+	}
+}
